@@ -75,7 +75,8 @@ def gen_session(r, tier):
             steps.append([gen_action(r) for _ in range(k)])
     # toggle-hscroll repaints the list only: a truncated header keeps its old shape until the header is
     # painted again (either shape is a truncation of the header line), so it is not toggled then
-    widest = max([len(h) for h in header] + [len(l) for l in lines[:hl]] + [0])
+    widest = max([len(h) for h in header] + [len(l) for l in lines[:hl]] + [0] +
+                 [max(len(x) for x in st[0][1].split('\n')) for st in steps if st[0][0] == 'change-header'])
     if widest > opts['cols'] - 6:
         steps = [[('clear-screen', None)] if st[0][0] == 'toggle-hscroll' else st for st in steps]
     if kind < 0.25:
